@@ -252,6 +252,7 @@ def run_alias(ctx: Ctx) -> RuleResult:
         res.finding(f2, f2.node, 'InteractiveParser.copy does not default to deepcopy_values=True', construct='ip-copy-default')
     _immutable_api(ctx, res)
     _immutable_no_self_store(ctx, res)
+    _immutable_returns(ctx, res)
     _parseconf_writes(ctx, res)
     _construction_sites(ctx, res)
     return res
@@ -349,6 +350,27 @@ def _immutable_no_self_store(ctx: Ctx, res: RuleResult):
         if not ok:
             res.finding(m, stores[0], 'a method of the immutable parser stores into self (%s): the parser it was called on changes, and the fork it '
                         'returns does not carry the value' % norm(stores[0]), construct='immutable-self-store:%s' % m.name)
+
+
+def _immutable_returns(ctx: Ctx, res: RuleResult):
+    """What a fork operation of the immutable parser hands back is immutable again: `<x>.as_immutable()`, or a copy of self."""
+    repo = ctx.repo
+    k = repo.cls(IIP)
+    for mname in ('feed_token', 'exhaust_lexer'):
+        m = k.methods.get(mname)
+        if m is None:
+            continue
+        sn = m.self_name() or 'self'
+        copies = {a.targets[0].id for a in m.body_nodes() if isinstance(a, ast.Assign) and len(a.targets) == 1 and isinstance(a.targets[0], ast.Name)
+                  and isinstance(a.value, ast.Call) and norm(a.value.func) == 'copy' and a.value.args and norm(a.value.args[0]) == sn}
+        rets = [r for r in m.body_nodes() if isinstance(r, ast.Return) and r.value is not None]
+        bad = [r for r in rets if not ((isinstance(r.value, ast.Call) and isinstance(r.value.func, ast.Attribute) and r.value.func.attr == 'as_immutable')
+                                       or (isinstance(r.value, ast.Name) and r.value.id in copies))]
+        ok = bool(rets) and not bad
+        res.ob('%s %s' % (m.loc(), m.qual), 'returns an immutable parser (as_immutable() of the work cursor, or a copy of self)', ok)
+        if not ok:
+            res.finding(m, bad[0] if bad else m.node, '%s of the immutable parser returns %s: the caller gets a parser that changes in place, so the forks that '
+                        'follow share its state' % (mname, norm(bad[0].value) if bad else 'nothing'), construct='immutable-returns:%s' % mname)
 
 
 def _parseconf_writes(ctx: Ctx, res: RuleResult):
